@@ -31,6 +31,9 @@ pub struct Subscription {
 
     /// Used by the actor to notify of interesting events.
     observer: Arc<SubscriptionObserver>,
+
+    /// Becomes `true` once the attempt to attach the subscription to its topic has finished.
+    attach_finished: tokio::sync::watch::Sender<bool>,
 }
 
 /// Information about a subscription.
@@ -93,7 +96,13 @@ impl Subscription {
             sender,
             internal_id,
             observer,
+            attach_finished: tokio::sync::watch::Sender::new(false),
         }
+    }
+
+    /// Records that the attempt to attach this subscription to its topic has finished.
+    pub(crate) fn mark_attach_finished(&self) {
+        self.attach_finished.send_replace(true);
     }
 
     /// Returns a signal for new messages.
@@ -203,6 +212,16 @@ impl Subscription {
 
     /// Deletes the subscription.
     pub async fn delete(&self) -> Result<(), DeleteError> {
+        // A subscription is visible as soon as it is registered, which is before it has been
+        // attached to its topic. Deleting it in that window would detach it first and let the
+        // late attach leave a dead subscription on the topic (every publish would then fail).
+        // So wait until the attach has finished; it runs in a task of its own and always does.
+        let _ = self
+            .attach_finished
+            .subscribe()
+            .wait_for(|done| *done)
+            .await;
+
         let (responder, recv) = oneshot::channel();
         #[cfg(deltio_verif)]
         crate::verif::point().await;
